@@ -378,7 +378,8 @@ import json, io, contextlib, importlib, warnings, os, tempfile, csv, signal
 import numpy as np
 warnings.simplefilter('ignore')
 classes = %(classes)r
-def handler(*a): raise TimeoutError()
+class Alarm(BaseException): pass
+def handler(*a): raise Alarm()
 signal.signal(signal.SIGALRM, handler)
 fails = []; done = 0; skipped = []
 for key in classes:
@@ -423,14 +424,14 @@ for key in classes:
                         if isinstance(v, (float, np.floating)) and not (float(cell) == float(v) or (float(cell) != float(cell) and v != v)): fails.append((key, 'csv round trip %%s' %% nme)); break
         finally: os.remove(fn)
         done += 1; signal.alarm(0)
-    except TimeoutError: skipped.append(key + ' (timeout)')
+    except Alarm: skipped.append(key + ' (timeout)')
     except Exception as e: skipped.append(key + ' (' + type(e).__name__ + ')'); signal.alarm(0)
 print(json.dumps({'reproduced': bool(fails), 'failures': fails[:10], 'classes_checked': done, 'skipped': skipped}))
 '''
 
 
 def bounded_unit(chunk, idx, tier):
-    r_ = native.run_script(BOUNDED % dict(classes=chunk, per=45 if tier == 'quick' else 300), timeout=3000)
+    r_ = native.run_script(BOUNDED % dict(classes=chunk, per=12 if tier == 'quick' else 300), timeout=3000)
     out = {'obligations': [], 'functions': [], 'engine_errors': [], 'bounded': []}
     if r_.get('result') is None:
         out['engine_errors'].append('bounded check did not run: ' + (r_.get('stderr_tail') or '')[-300:]); return out
@@ -447,11 +448,11 @@ def bounded_unit(chunk, idx, tier):
 
 def units(tier):
     cl = solver_classes()
-    us = [('base', {'kind': 'base'})] + [('class/%s' % k.replace('exactpack.solvers.', ''), {'kind': 'class', 'k': k}) for k in cl]
-    n = 12
-    for i in range(n):
+    n = 16; us = []
+    for i in range(n):       # bounded native chunks first: they are the slowest units
         chunk = cl[i::n]
         if chunk: us.append(('bounded/%d' % i, {'kind': 'bounded', 'chunk': chunk, 'idx': i, 'tier': tier}))
+    us += [('base', {'kind': 'base'})] + [('class/%s' % k.replace('exactpack.solvers.', ''), {'kind': 'class', 'k': k}) for k in cl]
     return us
 
 
